@@ -17,6 +17,7 @@ Include path: the scratch directory, then the library's own header directory (up
 """
 import os
 import re
+import shutil
 import subprocess
 import sys
 import sysconfig
@@ -245,6 +246,65 @@ def bracket_balance(outdir):
     return bad
 
 
+def link_step(outdir, incdirs, impl_files, workdir, impl_as_cxx=False):
+    """Compile every generated C/C++/Fortran source (not the Python/Lua extension sources) and the library implementation to
+    position independent objects and link them into one shared object with -Wl,--no-undefined: every object is linked whole, so
+    an undefined or a doubly defined symbol anywhere is reported (stronger than a main program that calls each wrapper).
+    Returns dict(status ok|fail|skip, why, messages)."""
+    inc = ["-I", outdir]
+    for d in incdirs:
+        inc += ["-I", d]
+    objdir = os.path.join(workdir, "obj")
+    os.makedirs(objdir, exist_ok=True)
+    files = sorted(os.listdir(outdir))
+    gen_c = [f for f in files if classify(f) == "c"]
+    gen_x = [f for f in files if classify(f) == "cxx"]
+    gen_f = [f for f in files if classify(f) == "fortran"]
+    if not (gen_c or gen_x or gen_f):
+        return {"status": "skip", "why": "no C/Fortran wrapper written"}
+    objs, n = [], 0
+
+    def cc(cmd, src, cwd):
+        nonlocal n
+        n += 1
+        o = os.path.join(objdir, "o%d.o" % n)
+        rc, out = run_cmd(cmd + ["-c", "-fPIC", "-w", src, "-o", o], cwd)
+        if rc == 0:
+            objs.append(o)
+        return rc, out
+    for f in impl_files:
+        if f.endswith(".c") and impl_as_cxx:
+            cmd = ["g++", "-std=c++11", "-x", "c++"] + inc      # upstream builds <lib>.c with the C++ compiler for the -cxx configurations
+        else:
+            cmd = (["gcc", "-std=c99"] if f.endswith(".c") else ["g++", "-std=c++11"]) + inc
+        rc, out = cc(cmd, f, outdir)
+        if rc != 0:
+            return {"status": "skip", "why": "library implementation %s does not compile here: %s" % (os.path.basename(f), norm_err(out, outdir))}
+    for f in gen_c:
+        rc, out = cc(["gcc", "-std=c99"] + inc, f, outdir)
+        if rc != 0:
+            return {"status": "skip", "why": "generated source does not compile (reported by the compile step): %s" % f}
+    for f in gen_x:
+        rc, out = cc(["g++", "-std=c++11"] + inc, f, outdir)
+        if rc != 0:
+            return {"status": "skip", "why": "generated source does not compile (reported by the compile step): %s" % f}
+    for f in (fortran_order(outdir, gen_f) if gen_f else []):
+        rc, out = cc(["gfortran", "-cpp", "-ffree-form", "-ffree-line-length-none", "-J", objdir] + inc, f, outdir)
+        if rc != 0:
+            return {"status": "skip", "why": "generated source does not compile (reported by the compile step): %s" % f}
+    rc, out = run_cmd(["gfortran", "-shared", "-Wl,--no-undefined", "-o", os.path.join(objdir, "all.so")] + objs + ["-lstdc++"], outdir)
+    if rc == 0:
+        return {"status": "ok", "objects": len(objs)}
+    msgs = []
+    for ln in out.split("\n"):
+        m = re.search(r"(undefined reference to|multiple definition of) [`‘']([^'’]+)['’]", ln)
+        if m:
+            msg = "%s '%s'" % (m.group(1), m.group(2))
+            if msg not in msgs:
+                msgs.append(msg)
+    return {"status": "fail", "messages": msgs[:12] or [norm_err(out, outdir)], "log": out[-1500:]}
+
+
 def job(spec):
     """spec: dict(tag, yaml (path) or yaml_text, options, language, incdirs, header=(name,text)|None, write_version)
     Runs in a worker process.  Returns dict(tag, exc, files:[...], results:[...])."""
@@ -282,6 +342,33 @@ def job(spec):
         r["results"] = compile_dir(outdir, spec.get("language"), incdirs)
         if spec.get("defines"):
             r["results"] += compile_dir(outdir, spec.get("language"), incdirs, defines=spec["defines"])
+        if spec.get("link"):
+            impl = []
+            for idir in spec.get("impl_dirs", []):
+                for f in sorted(os.listdir(idir)):
+                    if f.endswith((".c", ".cpp", ".cxx")):
+                        txt = open(os.path.join(idir, f), errors="replace").read()
+                        if not re.search(r"\bmain\s*\(", txt):
+                            impl.append(os.path.join(idir, f))
+            if spec.get("stub"):
+                sp = os.path.join(d, "inc", spec["stub"][0])
+                with open(sp, "w") as fh:
+                    fh.write(spec["stub"][1])
+                impl.append(sp)
+            r["link"] = link_step(outdir, incdirs, impl, d)
+            if r["link"]["status"] == "fail" and any(f.endswith(".c") for f in impl) and any(classify(f) == "cxx" for f in r["files"]):
+                shutil.rmtree(os.path.join(d, "obj"), ignore_errors=True)
+                again = link_step(outdir, incdirs, impl, d, impl_as_cxx=True)
+                if again["status"] != "skip":
+                    r["link"] = again
+            r["link"]["library_text"] = ""
+            if r["link"]["status"] == "fail":
+                txt = []
+                for idir in list(spec.get("impl_dirs", [])):
+                    for f in os.listdir(idir):
+                        if f.endswith((".c", ".cpp", ".h", ".hpp", ".cxx")):
+                            txt.append(open(os.path.join(idir, f), errors="replace").read())
+                r["link"]["library_text"] = "\n".join(txt)[:400000]
         r["dups"] = duplicate_includes(outdir)
         r["brackets"] = bracket_balance(outdir)
         return r
